@@ -35,7 +35,8 @@ PROPS = {
               "implementation model to the reference (see DESIGN: C10 lemma chain) - correspondence only."),
     "C02": _p("Proof (partial): the explicit-stack DFS of confirmEvents, started on an ancestor-closed confirmed set, delivers exactly the Atropos' "
               "ancestry minus what was confirmed, each event once, and leaves an ancestor-closed set; decided frames are frameToDecide and onFrameDecided "
-              "moves to the next frame / FirstFrame after a seal. Not proved: termination of the Go loop, 'Atropos is a root of the frame'. "
+              "moves to the next frame / FirstFrame after a seal. Termination is proved too: on a DAG given as a parents-first history (parents have smaller positions) with n events and at most k parents per event the loop finishes within n*(k+1)+1 iterations from any confirmed set (C02_confirm_terminates; total correctness C02_block_total). "
+              "Not proved: 'Atropos is a root of the frame'. "
               "Correspondence: each block's delivered set and ApplyEvent call count are compared with 'ancestry of the Atropos minus everything delivered before' "
               "computed by the reference; frames consecutive from 1; Atropos is a root of the frame (reference picks it among roots).",
               props=["LachesisVerif.Props.C02"], level="proof"),
